@@ -4,7 +4,7 @@
    registrations as (method, segments of the cleaned pattern, id)); route_req = ServeHTTP's outcome,
    Hit rs listing the (handler, variables) results over all Go map iteration orders. *)
 From Coq Require Import String.
-From God Require Import Base.Prelude C03.Path C03.Spec C03.Model C03.Proofs C03.Table C03.Determ.
+From God Require Import Base.Prelude C03.Path C03.Spec C03.Model C03.Proofs C03.Table C03.Determ C03.Engine.
 Local Open Scope N_scope.
 
 (* a handler that can run belongs to a registered pattern of the request's method matching the
@@ -85,6 +85,45 @@ Theorem c03_clean_shape : forall p,
 Proof. exact clean_shape. Qed.
 Print Assumptions c03_clean_shape.
 
+(* ---- registration through api.engine / api.Server (AddRoutes, WithPrefix, bindRoutes) ---- *)
+(* engine_routes gs = the (method, path, id) list the application added, paths of WithPrefix groups
+   replaced by path.Join(group, path).  Binding them on a fresh router is calling Handle on exactly
+   these pairs, in order, up to the first rejection: the resulting table is `build` of the accepted
+   prefix (so every theorem above applies to it verbatim), the error is the Spec's verdict on the
+   first rejected route, which is the verdict Handle gives on that same (method, path). *)
+Theorem c03_engine_transparent : forall gs,
+  let rs := engine_routes gs in
+  exists k, (k <= List.length rs)%nat /\
+    fst (engine_register gs) = build (firstn k rs) /\
+    snd (engine_register gs) = snd (sbind [] rs) /\
+    fst (sbind [] rs) = registered (firstn k rs) /\
+    (snd (engine_register gs) = None -> k = List.length rs /\ fst (engine_register gs) = build rs) /\
+    (forall e, snd (engine_register gs) = Some e ->
+       exists m p id, nth_error rs k = Some (m, p, id) /\
+         reject (registered (firstn k rs)) m p = Some e /\
+         snd (handle (build (firstn k rs)) m p id) = Some e).
+Proof. exact engine_transparent. Qed.
+Print Assumptions c03_engine_transparent.
+
+(* error-free start-up: the router is build (all routes) and every route is registered under the
+   segments of its cleaned (prefix-joined) path *)
+Theorem c03_engine_accepts : forall gs, snd (engine_register gs) = None ->
+  fst (engine_register gs) = build (engine_routes gs) /\
+  registered (engine_routes gs) = map to_route (engine_routes gs).
+Proof. exact engine_accepts. Qed.
+Print Assumptions c03_engine_accepts.
+
+(* an unsupported method, a relative or empty (prefix-joined) path, or a duplicate cleaned pattern
+   anywhere in the added routes makes the start-up fail *)
+Theorem c03_engine_rejects : forall gs,
+  (forall m p id, In (m, p, id) (engine_routes gs) ->
+     valid_method m = false \/ rooted p = false -> snd (engine_register gs) <> None) /\
+  (forall m p1 id1 p2 id2 l1 l2 l3,
+     engine_routes gs = l1 ++ (m, p1, id1) :: l2 ++ (m, p2, id2) :: l3 ->
+     rooted p1 = true -> rooted p2 = true -> pattern_of p1 = pattern_of p2 -> snd (engine_register gs) <> None).
+Proof. intro gs. split; [apply engine_rejects_bad|apply engine_rejects_dup]. Qed.
+Print Assumptions c03_engine_rejects.
+
 (* ---- non-vacuity ---- *)
 Definition b (s : string) : list N := map (fun a => N.of_nat (Ascii.nat_of_ascii a)) (list_ascii_of_string s).
 Definition ex_regs : list reg :=
@@ -121,3 +160,15 @@ Proof.
           injection E1 as ? E1; injection E2 as ? E2; subst;
           try (vm_compute in P1; discriminate); try (vm_compute in P2; discriminate); try reflexivity).
 Qed.
+
+Example c03_engine_examples :
+  let g1 : group := (Some (b "/api"), [("GET", b "a/:id", 0); ("GET", b "/b/", 1); ("POST", b "", 2)]%string%nat) in
+  let g2 : group := (None, [("GET", b "/c", 3)]%string%nat) in
+  map (fun r => snd (fst r)) (engine_routes [g1; g2]) = [b "/api/a/:id"; b "/api/b"; b "/api"; b "/c"] /\
+  snd (engine_register [g1; g2]) = None /\
+  route_req (fst (engine_register [g1; g2])) "GET" (b "/api/a/7") = Hit [(0, [(b "id", b "7")])]%nat /\
+  snd (engine_register [g2; (None, [("GET", b "a/b", 4)]%string%nat)]) = Some EPath /\
+  snd (engine_register [(Some (b "api"), [("GET", b "/x", 5)]%string%nat)]) = Some EPath /\
+  snd (engine_register [(Some [], [("GET", b "", 6)]%string%nat)]) = Some EPath /\
+  snd (engine_register [g2; (Some (b "/"), [("GET", b "c/.", 7)]%string%nat)]) = Some EDup.
+Proof. vm_compute. repeat split; reflexivity. Qed.
